@@ -168,3 +168,34 @@ impl Backend for Reloc {
         AnyVec::with_capacity_in::<E>(cap, Reloc)
     }
 }
+
+
+/// `Reloc` that hands out storage for `K` elements already at `build()` (a backend may do that); relocates on every
+/// later capacity change like `Reloc`.
+#[derive(Clone, Default)]
+pub struct RelocK<const K: usize>;
+impl<const K: usize> MemBuilder for RelocK<K> {
+    type Mem = RelocMem;
+    fn build(&mut self, element_layout: Layout) -> RelocMem {
+        let mut m = Reloc.build(element_layout);
+        m.resize(K);
+        m
+    }
+}
+impl<const K: usize> MemBuilderSizeable for RelocK<K> {
+    fn build_with_size(&mut self, element_layout: Layout, capacity: usize) -> RelocMem {
+        let mut m = Reloc.build(element_layout);
+        m.resize(if capacity > K { capacity } else { K });
+        m
+    }
+}
+impl<const K: usize> Backend for RelocK<K> {
+    const NAME: &'static str = "RelocK";
+    const RESIZABLE: bool = true;
+    fn inst() -> Self {
+        RelocK::<K>
+    }
+    fn mk<Tr: ?Sized + Trait, E: 'static + SatisfyTraits<Tr>>(cap: usize) -> AnyVec<Tr, Self> {
+        AnyVec::with_capacity_in::<E>(cap, RelocK::<K>)
+    }
+}
